@@ -28,6 +28,48 @@ type Cfg struct {
 	NoHooks    bool
 	Binary     bool // running under binary_log (no effect on generation, recorded only)
 	Tree       bool // derivation trees, interleaved steps/events, several open events
+	NoFocus    bool // never narrow a program's value types to one family (see focusSets)
+}
+
+// focusSets: one program in four draws its values from one family only (plus the containers), with
+// the settings of that family always varied: combinations such as "Stack() + Fields{error} + a
+// stack marshaler returning a typed nil" or "Times under UNIXMS before 1970" need three or four
+// rare ingredients at once and are out of reach when every ingredient is drawn from ~60 types.
+var focusSets = map[string]map[string]bool{
+	"errors": set("stack", "err", "anerr", "errs", "any", "str", "nil"),
+	"time":   set("time", "times", "dur", "durs", "timediff", "timestamp", "ptr"),
+	"num":    set("float32", "float64", "floats32", "floats64", "int", "int64", "ints", "uint64", "uints64", "uint8", "ints8", "ptr"),
+	"net":    set("ip", "ipnet", "mac", "hex", "bytes", "rawcbor", "rawjson"),
+	"iface":  set("iface", "any", "type", "stringer", "stringers", "nil", "ptr", "anerr"),
+}
+
+var focusNames = []string{"errors", "time", "num", "net", "iface"}
+
+var containers = set("dict", "arr", "arrm", "obj", "embed", "fieldsmap", "fieldsslice", "func")
+
+func set(xs ...string) map[string]bool {
+	m := map[string]bool{}
+	for _, x := range xs {
+		m[x] = true
+	}
+	return m
+}
+
+func (g *G) focused(ts []string) []string {
+	if g.focus == "" {
+		return ts
+	}
+	keep := focusSets[g.focus]
+	var out []string
+	for _, x := range ts {
+		if keep[x] || containers[x] {
+			out = append(out, x)
+		}
+	}
+	if len(out) == 0 {
+		return ts
+	}
+	return out
 }
 
 func DefaultCfg() Cfg { return Cfg{MaxOps: 6, MaxDepth: 3} }
@@ -40,6 +82,7 @@ type G struct {
 
 	compositeOnly bool
 	inFields      bool
+	focus         string
 }
 
 func NewG(t *rapid.T, cfg Cfg) *G { return &G{t: t, cfg: cfg} }
@@ -481,7 +524,11 @@ func (g *G) Scalar(typ string, depth int, label string) Val {
 			}
 		}
 	case "ipnet":
-		if rapid.Bool().Draw(t, label+".v6") {
+		if c := rapid.IntRange(0, 4).Draw(t, label+".v6"); c == 0 {
+			// an IPv4-mapped network as net.ParseCIDR("::ffff:a.b.c.d/n") returns it: 16-byte address and mask
+			v.S = append([]byte{0, 0, 0, 0, 0, 0, 0, 0, 0, 0, 0xff, 0xff}, rapid.SliceOfN(rapid.Byte(), 4, 4).Draw(t, label+".ipm")...)
+			v.Bits = rapid.IntRange(88, 128).Draw(t, label+".bits")
+		} else if c <= 2 {
 			v.S = rapid.SliceOfN(rapid.Byte(), 16, 16).Draw(t, label+".ip6")
 			v.Bits = rapid.IntRange(0, 128).Draw(t, label+".bits")
 		} else {
@@ -517,7 +564,7 @@ func (g *G) sliceLen(label string) (n int, isNil bool) {
 // Val draws a value of one of the types legal at `where`.
 func (g *G) Val(where string, depth int, label string) Val {
 	t := g.t
-	typ := rapid.SampledFrom(typesFor(where, depth, g.cfg)).Draw(t, label+".typ")
+	typ := rapid.SampledFrom(g.focused(typesFor(where, depth, g.cfg))).Draw(t, label+".typ")
 	return g.ValOf(typ, where, depth, label)
 }
 
@@ -624,6 +671,9 @@ var layouts = []string{"RFC3339", "RFC3339", "RFC3339Nano", "UNIX", "UNIXMS", "U
 func (g *G) Settings() Settings {
 	t := g.t
 	s := DefaultSettings()
+	if !g.cfg.NoFocus && rapid.IntRange(0, 3).Draw(t, "focus") == 0 {
+		g.focus = rapid.SampledFrom(focusNames).Draw(t, "focus.which")
+	}
 	if g.cfg.NoSettings {
 		g.set = s
 		return s
@@ -646,8 +696,17 @@ func (g *G) Settings() Settings {
 		s.FloatPrec = rapid.SampledFrom([]int{-1, -1, -1, -1, 0, 1, 3, 17}).Draw(t, "set.fp")
 	}
 	s.ErrMarshal = rapid.SampledFrom([]string{"", "", "", "string", "obj", "othererr", "nil", "struct"}).Draw(t, "set.em")
-	s.StackMarshal = rapid.SampledFrom([]string{"", "", "nil", "string", "error", "obj", "frames"}).Draw(t, "set.sm")
+	s.StackMarshal = rapid.SampledFrom([]string{"", "", "nil", "string", "error", "obj", "frames", "nilerr"}).Draw(t, "set.sm")
 	s.IfaceMarshal = rapid.SampledFrom([]string{"", "", "stdjson", "wrap"}).Draw(t, "set.im")
+	switch g.focus {
+	case "errors":
+		s.ErrMarshal = rapid.SampledFrom([]string{"", "string", "obj", "othererr", "nil", "struct"}).Draw(t, "set.em2")
+		s.StackMarshal = rapid.SampledFrom([]string{"nil", "string", "error", "obj", "frames", "nilerr"}).Draw(t, "set.sm2")
+	case "time":
+		if !g.cfg.C08 {
+			s.TimeFormat = rapid.SampledFrom([]string{"UNIX", "UNIXMS", "UNIXMICRO", "UNIXNANO", "RFC3339Nano", "RFC3339"}).Draw(t, "set.tf2")
+		}
+	}
 	if rapid.Bool().Draw(t, "set.clk") {
 		s.ClockSec = rapid.Int64Range(-4294967296, 4294967296).Draw(t, "set.clks")
 		s.ClockNsec = rapid.SampledFrom([]int64{0, 1000, 999999000, 123456000}).Draw(t, "set.clkn")
@@ -703,11 +762,32 @@ func (g *G) Steps(label string, maxSteps int) []Step {
 		}
 		sibLeft = rapid.IntRange(2, 3).Draw(t, label+".sibs")
 	}
+	// update pattern: With() logger a, a Level/Hook/Sample copy b of it, then UpdateContext on a
+	// (half of the time starting with Reset): b shares a's backing array and must not notice
+	patAt := -1
+	if g.cfg.Tree && n >= 4 && burstLeft == 0 && rapid.IntRange(0, 3).Draw(t, label+".updpat") == 0 {
+		patAt = rapid.IntRange(0, n-3).Draw(t, label+".updat")
+	}
+	patReset := false
 	for i := 0; i < n; i++ {
 		parent := i - 1
 		var from *int
 		forced := ""
 		switch {
+		case patAt >= 0 && i == patAt:
+			forced = "with"
+		case patAt >= 0 && i == patAt+1:
+			forced = rapid.SampledFrom([]string{"level", "sample", "hook"}).Draw(t, label+".updcopy")
+			if g.cfg.NoHooks && forced == "hook" {
+				forced = "level"
+			}
+			f := patAt
+			from, parent = &f, f
+		case patAt >= 0 && i == patAt+2:
+			forced = "update"
+			f := patAt
+			from, parent = &f, f
+			patReset = rapid.Bool().Draw(t, label+".updreset")
 		case burstLeft > 0:
 			burstLeft--
 			forced = burstKind
@@ -740,7 +820,9 @@ func (g *G) Steps(label string, maxSteps int) []Step {
 		switch k {
 		case "with", "update":
 			st.Ops = g.Ops("context", g.cfg.MaxDepth-1, label+".cops")
-			if g.cfg.Tree && rapid.IntRange(0, 5).Draw(t, label+".reset") == 0 {
+			if forced == "update" && patReset {
+				st.Ops = append([]Op{{V: Val{T: "reset"}}}, st.Ops...)
+			} else if g.cfg.Tree && rapid.IntRange(0, 5).Draw(t, label+".reset") == 0 {
 				// Context.Reset is a rare entry point: make sure it occurs, also at the head of an
 				// UpdateContext on a logger that already has Level/Sample/Hook children
 				st.Ops = append([]Op{{V: Val{T: "reset"}}}, st.Ops...)
